@@ -108,6 +108,31 @@ def fn_errors(R, q):
     return cands
 
 
+def obligation_taint(R, q, io):
+    """Reasons why a failure of function q in run R is not a verdict (see the caller)."""
+    from . import run as RUN
+    out = []
+    short = q.split("::")[-1]
+    if io is not None:
+        for (rule, where, desc) in io.rules:
+            if rule == "T7o" and "invariant dropped" in desc:
+                out.append("its loop invariant had nothing to attach to (%s)" % desc)
+    if short in getattr(R, "noloop_fns", []):
+        out.append("the changed code has a new loop or recursion without invariant/measure (verified as arbitrary effect)")
+    info = getattr(R, "stub_info", [])
+    if info:
+        text = R.assembled.text
+        lines = text.split("\n")
+        body = ""
+        for (nm, a_, b_) in RUN.fn_spans(text):
+            if nm == short:
+                body += "\n".join(lines[a_ - 1:b_]) + "\n"
+        for (name, is_mut) in info:
+            if is_mut and re.search(r"\.\s*%s\s*\(" % re.escape(name), body):
+                out.append("it now calls %s(), a mutating method outside every contract (modelled as arbitrary effect)" % name)
+    return out
+
+
 def conclude(prop, a, cfg, results, twins, stability, kani, seed, t0):
     base = load_baseline()
     undecided = []
@@ -210,6 +235,14 @@ def conclude(prop, a, cfg, results, twins, stability, kani, seed, t0):
                     obligations -= 1
                     continue
             errs = unmatched if unmatched else errs
+            # A definite failure is a verdict only if the function was checked with all of its proof hints and without
+            # havoc: a loop invariant that had nothing to attach to (the loop moved or was rewritten), a new loop that
+            # has no invariant at all, or a call of a mutating method outside every contract (modelled as arbitrary
+            # effect) make the verifier fail for reasons that say nothing about the property.  Not an alarm.
+            taint = obligation_taint(R, q, io)
+            if taint:
+                undecided.append("%s: fails, but cannot be decided: %s" % (ob, "; ".join(taint)))
+                continue
             violations.append({"obligation": ob, "unit": u, "q": q, "errors": errs, "auto_stubs": getattr(R, "auto_stubs", []),
                                "repo": ("%s:%d-%d" % (io.file, io.repo_lines[0], io.repo_lines[1])) if io else None,
                                "gen": R.gen_path})
@@ -325,8 +358,11 @@ def conclude(prop, a, cfg, results, twins, stability, kani, seed, t0):
         "wall_s": round(wall, 2),
         "violations": len(violations),
     }
-    os.makedirs(os.path.join(C.VERIF, "evidence"), exist_ok=True)
-    with open(os.path.join(C.VERIF, "evidence", prop + ".json"), "w") as f:
+    # the committed evidence describes /repo itself; a run against a scratch copy (self-test, seeded changes applied
+    # elsewhere) writes its evidence next to its build output instead
+    evdir = os.path.join(C.VERIF, "evidence") if os.path.realpath(C.REPO) == "/repo" else os.path.join(C.BUILD, "evidence_scratch")
+    os.makedirs(evdir, exist_ok=True)
+    with open(os.path.join(evdir, prop + ".json"), "w") as f:
         json.dump(ev, f, indent=1)
         f.write("\n")
 
